@@ -221,7 +221,7 @@ def frequency_ranks(counts):
 
 
 class PermModel:
-    """kind: none | random | freq (ranks table)."""
+    """kind: none | random | freq (ranks table) | table (arbitrary injective keys, held in ranks)."""
 
     def __init__(self, kind, size, ranks=None):
         self.kind = kind
@@ -239,12 +239,16 @@ class PermModel:
     def min(self):
         if self.kind == "random":
             return -(1 << 63)
+        if self.kind == "table":
+            return min(self.ranks)
         return 0
 
     @property
     def max(self):
         if self.kind == "random":
             return (1 << 63) - 1
+        if self.kind == "table":
+            return max(self.ranks)
         return self.size - 1
 
 
